@@ -398,5 +398,60 @@ theorem C14_run_all_bloc_kinds (P : Params) (log : List Call) (out : GenOut)
     simp [List.contains, List.elem]
     rfl
 
+/-- BallotSimplex kinds (point, ImpartialCulture, ImpartialAnonymousCulture): `N` unit ballots -/
+theorem C14_runSimplex (P : Params) : Ensures (runSimplex P) (UnitPool P.N) := by
+  unfold runSimplex
+  simp only
+  have tail : ∀ probs : List Rat, Ensures (do
+      let idx ← expectChoiceIdx (permsLex P.cands.length P.cands).length (some probs) P.N "ranking draw"
+      idx.mapM (fun i => match (permsLex P.cands.length P.cands)[i]? with
+        | some r => pure (plBallot r [])
+        | none => bad "index") : GenM (List Ballot)) (UnitPool P.N) := by
+    intro probs
+    refine ensures_bind _ _ _ _ (expectChoiceIdx_spec _ _ P.N _) ?_
+    intro idx hidx
+    refine ensures_weaken _ _ _ (ensures_mapM _ (fun b => b.weight = 1) idx ?_) (fun o ho => ⟨by rw [ho.1, hidx], ho.2⟩)
+    intro i _
+    split
+    · exact ensures_pure _ _ rfl
+    · exact ensures_bad _ _
+  refine ensures_ite _ _ _ _ (fun _ => ?_) (fun _ => ?_)
+  · exact ensures_bind _ _ (fun _ => True) _ (ensures_any _) (fun probs _ => tail probs)
+  · refine ensures_ite _ _ _ _ (fun _ => ?_) (fun _ => ?_)
+    · exact ensures_bind _ _ (fun _ => True) _ (ensures_any _) (fun probs _ => tail probs)
+    · refine ensures_ite _ _ _ _ (fun _ => ?_) (fun _ => ?_)
+      · exact ensures_bind _ _ (fun _ => False) _ (ensures_bad _ _) (fun _ hf => hf.elim)
+      · exact ensures_bind _ _ (fun _ => True) _ (ensures_any _) (fun probs _ => tail probs)
+
+/-- the profile `Gen.run` returns for the simplex kinds has total weight `N` and whole positive weights -/
+theorem C14_run_simplex (P : Params) (log : List Call) (out : GenOut) (hk : P.kind ∈ ["point", "ic", "iac"])
+    (h : run P log = .ok out) :
+    totalWeight out.agg = P.N ∧ ∀ b ∈ out.agg, ∃ n : Nat, 0 < n ∧ b.weight = (n : Rat) := by
+  have key : Ensures (do
+      let bs ← runSimplex P
+      let o : GenOut := { byBloc := [], agg := condense bs }
+      match (← get) with
+      | [] => pure o
+      | c :: _ => bad s!"unexpected extra call {c.name}" : GenM GenOut)
+      (fun out => totalWeight out.agg = P.N ∧ ∀ b ∈ out.agg, ∃ n : Nat, 0 < n ∧ b.weight = (n : Rat)) := by
+    refine ensures_bind _ _ _ _ (C14_runSimplex P) ?_
+    intro bs hbs
+    refine ensures_get_tail _ _ ⟨?_, C14_pool_weights_pos_int _ hbs.2⟩
+    simp only
+    rw [C14_pool_total _ hbs.2, hbs.1]
+  simp only [List.mem_cons, List.not_mem_nil, or_false] at hk
+  unfold run at h
+  rcases hk with hk | hk | hk <;>
+  · simp only [hk] at h
+    split at h
+    · rename_i o s' hr
+      injection h with h
+      subst h
+      refine key log o s' ?_
+      rw [← hr]
+      simp [List.contains, List.elem]
+      rfl
+    · cases h
+
 end Gen
 end VK
